@@ -77,6 +77,41 @@ theorem source_rejects_out_of_range (s : SrcState) (t : Nat) (a : Ans) (k : Int)
   unfold SrcState.behaviour
   simp [hpc, hpol, selIdx, hs, hk, SrcState.crash]
 
+/-- Machine, in-edge side: a user selector that answers an index outside `[0, nin)` ends the behaviour process with the range assertion;
+nothing is requested from any in-edge and nothing is recorded in `in_edge_selection` -/
+theorem machine_in_rejects_out_of_range (s : MacState) (t : Nat) (a : Ans) (k : Int) (rest : List Int)
+    (hpc : s.bpc = .slotWait) (hg : s.granted = true) (hocc : s.numWorkers < s.occ.length)
+    (hpol : s.cfg.inPol = .user) (hs : a.sels = k :: rest) (hk : k < 0 ∨ k ≥ s.cfg.nin) :
+    (s.behaviour t a).2 = [.sel k, .crash .assertion] ∧ (s.behaviour t a).1.bpc = .dead ∧ (s.behaviour t a).1.insel = s.insel := by
+  unfold MacState.behaviour
+  have h2 : ¬ (s.numWorkers ≥ s.occ.length) := by omega
+  simp [hpc, hg, h2, hpol, selIdx, hs, hk, MacState.crashB, MacState.occAdd]
+
+/-- Machine, out-edge side: the worker whose user selector answers an index outside `[0, nout)` ends with the range assertion; no out-edge is
+asked for room or probed, nothing is recorded in `out_edge_selection` -/
+theorem machine_out_rejects_out_of_range (s : MacState) (i : Nat) (w : Worker) (t : Nat) (a : Ans) (k : Int) (rest : List Int)
+    (hpc : w.pc = .timer) (hpol : s.cfg.outPol = .user) (hs : a.sels = k :: rest) (hk : k < 0 ∨ k ≥ s.cfg.nout) :
+    (s.worker i w t a).2 = [.sel k, .crash .assertion] ∧ (s.worker i w t a).1.outsel = s.outsel := by
+  unfold MacState.worker
+  simp [hpc, hpol, selIdx, hs, hk, MacState.setWorker]
+
+/-- Splitter / Combiner, out-edge side: the routing decision for a unit under a user selector that answers outside `[0, nout)` is the crash;
+no edge is named in it -/
+theorem pack_rejects_out_of_range (cfg : PackCfg) (rr : Nat) (cans : List Bool) (k : Int) (rest : List Int)
+    (hpol : cfg.outPol = .user) (hk : k < 0 ∨ k ≥ cfg.nout) :
+    (PackState.route cfg rr cans (k :: rest)).dec = .crash ∧ (PackState.route cfg rr cans (k :: rest)).calls = [.sel k] ∧
+    (PackState.route cfg rr cans (k :: rest)).sel = none := by
+  unfold PackState.route
+  simp [hpol, selIdx, hk]
+
+/-- the hypotheses are met by concrete states: a machine with two in-edges whose selector answers -1, a worker whose selector answers 2 of 2
+out-edges, a splitter decision with the answer -2 -/
+example : let s : MacState := { MacState.init { inPol := .user, nin := 2 } with bpc := .slotWait, granted := true }
+    (s.behaviour 5 { sels := [-1, 0] }).2 = [.sel (-1), .crash .assertion] ∧ s.numWorkers < s.occ.length := by decide +kernel
+example : let s : MacState := MacState.init { outPol := .user, nout := 2 }
+    (s.worker 0 { ord := 1, item := 4, delay := 2, pc := .timer } 7 { sels := [2] }).2 = [.sel 2, .crash .assertion] := by decide +kernel
+example : (PackState.route { kind := .splitter, outPol := .user, nout := 3, blocking := false } 0 [true, true, true] [-2, 1]).dec = .crash := by decide +kernel
+
 /-! ### "The selection history a node records equals the routing that actually happened" - Machine, in-edge side, every schedule.
 While the machine waits for the reservation it placed on the in-edge `e` it SELECTED (ROUND_ROBIN, constant, user callable / generator),
 `e` is the last entry of `in_edge_selection`; the `get` it issues when that token is granted is a get on `e`.  Under FIRST_AVAILABLE the
